@@ -956,6 +956,42 @@ def run(tier, seed):
                             k += 1
                             R.case(G, ("ex", meter, prefix, ch, dur))
                             from_chords_case(k, (meter, prefix, [fc_items[i] for i in ch], dur))
+    # 5c. history: a track built from a chord list, then edited by its owner (transposed, first chord thickened), must
+    #     not change what a LATER from_chords call places -- on a new track or on the same one
+    H = "Track.from_chords after an earlier track was edited"
+    for ci, chords_h in enumerate((["C", ["Am", "F"], None, "G7"], ["Dm"], ["C", "C", "C", "C"], [["Em", "Am"], "D7"])):
+        for dur in (1, 2, 4):
+            with section(H, 'from-chords-places-every-chord-and-rest', ("history", ci, dur)):
+                R.case(H, ("history", ci, dur))
+                inputs = {"first": chords_h, "duration": dur}
+                t1 = Track().from_chords(chords_h, dur)
+                t1.transpose("3")
+                for b in t1:
+                    for e in b:
+                        if e[2] is not None:
+                            e[2].add_note("B-5")
+                            break
+                    break
+                base_len = (1 / F(dur)).limit_denominator(64)
+                for label, tr in (("new track", Track()), ("the edited track", t1)):
+                    mt = MTrack()
+                    if tr is t1:
+                        # what the edited track holds now is read back from it; only what is ADDED is judged
+                        before = snap(tr)
+                        nb = sum(len(ents) for (_, _, ents) in before)
+                    else:
+                        nb = 0
+                    req = list(flatten(chords_h, dur, base_len))
+                    tr2 = Track() if tr is not t1 else tr
+                    tr2.from_chords(chords_h, dur)
+                    got = [(v, c) for (_, _, ents) in snap(tr2) for (_, v, c) in ents][nb:]
+                    want_c = [None if c is None else chord_contents(c) for c, _, _, _ in req]
+                    got_c = [k for k, _ in itertools.groupby([c for v, c in got])]
+                    want_g = [k for k, _ in itertools.groupby(want_c)]
+                    if got_c != want_g:
+                        R.fail(H, "from-chords-places-every-chord-and-rest",
+                               "%s holds %r after from_chords, the chord list asks for %r" % (label, got_c[:6], want_g[:6]),
+                               dict(inputs, target=label))
     # 5b. seeded: nested lists to depth 3, all chord qualities, instruments, mixed prefixes, other meters
     for s in range(1200 if quick else 24000):
         with section(G, 'from-chords-places-every-chord-and-rest', ("seed", seed, "case", s)):
